@@ -325,7 +325,7 @@ def run_engine(tier, seed, corpus_dir=None):
                 "restrict_keeps_disallowed_kind_pu", "restrict_einval_misses_allowed", "restrict_removed_strict",
                 "dup_strict", "xml_strict", "by_disallowed_idx",
                 "env_switch", "rank_episodes", "rk_forced_distinct", "rk_forced_ties", "rk_forced_partial", "rk_forced_none",
-                "rk_override", "rk_restrict"]
+                "rk_override", "rk_restrict", "rawset", "rawswap", "rawrank", "raw_negative_forced"]
     # every value of HWLOC_CPUKINDS_RANKING must have re-ranked >= 2 kinds with both outcomes (`none` can only fail)
     must_hit += ["sweep_%s_unranked" % v for v in ENVVALS] + ["sweep_%s_ranked" % v for v in ENVVALS if v != "none"]
     missed = [b for b in must_hit if not stats.get(b)]
